@@ -93,4 +93,45 @@ Proof.
   cbn [seq map hd]. unfold aget_d. cbn [aget]. rewrite (keqb_refl aeqb aeqb_spec). reflexivity.
 Qed.
 
+(* EpsilonGreedy leaves: the leaf policy holds the mean of the leaf's rewards; predict_expectations draws the exploration
+   number from the generator the leaf policies use, and with probability epsilon answers with one more uniform draw *)
+Theorem leaf_policy_greedy (hp : R) bz (a : A) (rewards : list R) :
+  let l1 := cf_fit N aeqb (cf_init N KGreedy hp bz [a]) (repeat a (length rewards)) rewards in
+  c_hp l1 = hp /\ c_arms l1 = [a] /\ greedy_arm_ok N aeqb l1 [rewards] a.
+Proof.
+  intros l1.
+  assert (Hk0 : keys_ok (cf_init N KGreedy hp bz [a])) by (apply keys_ok_init; repeat constructor; intros []).
+  assert (H0 : forall a', In a' (c_arms (cf_init N KGreedy hp bz [a])) -> greedy_arm_ok N aeqb (cf_init N KGreedy hp bz [a]) [] a').
+  { intros a' [<-|[]]. unfold greedy_arm_ok, cf_init; simpl. rewrite (keqb_refl aeqb aeqb_spec).
+    eexists; split; [reflexivity|]. simpl. unfold spec_mean; simpl. auto. }
+  pose proof (greedy_stat N aeqb aeqb_spec (cf_init N KGreedy hp bz [a]) [OFit (repeat a (length rewards)) rewards] eq_refl Hk0 H0 I) as H.
+  cbv zeta in H. simpl cf_run_rev in H. fold l1 in H. destruct H as (_ & _ & Harm).
+  assert (Hcfg := cf_fit_cfg N aeqb (cf_init N KGreedy hp bz [a]) (repeat a (length rewards)) rewards). fold l1 in Hcfg.
+  destruct Hcfg as (_ & Hhp & _ & _ & Harms).
+  split; [exact Hhp|]. split; [exact Harms|].
+  assert (Ha : In a (c_arms l1)) by (rewrite Harms; left; reflexivity).
+  specialize (Harm a Ha). simpl in Harm. rewrite arm_rewards_repeat in Harm. exact Harm.
+Qed.
+
+Theorem leaf_expectation_greedy (s : @tree R A) g a (rewards : list R) :
+  c_kind (t_lp s) = KGreedy ->
+  leaf_expectation N aeqb RG s g a rewards =
+  (let (u, g1) := draw_r RG g (RqRand []) in
+   if ltb N (hd0 N u) (c_hp (t_lp s))
+   then let (v, g2) := draw_r RG g1 (RqRand []) in (hd0 N v, g2)
+   else (spec_mean N [rewards], g1)).
+Proof.
+  intros Ek. unfold leaf_expectation. rewrite Ek.
+  set (bz := if t_kf_rebin s then c_binz (t_lp s) else None).
+  destruct (leaf_policy_greedy (c_hp (t_lp s)) bz a rewards) as (Hh & Harms & st & Hs & _ & _ & He).
+  set (l1 := cf_fit N aeqb (cf_init N KGreedy (c_hp (t_lp s)) bz [a]) (repeat a (length rewards)) rewards) in *.
+  assert (Ek1 : c_kind l1 = KGreedy) by (unfold l1; rewrite (proj1 (cf_fit_cfg N aeqb _ _ _)); reflexivity).
+  unfold cf_predict_exp. rewrite Ek1, Harms, Hh. cbn [is_single length].
+  destruct (draw_r RG g (RqRand [])) as [u g1].
+  destruct (ltb N (hd0 N u) (c_hp (t_lp s))).
+  - cbn [draw_scalars]. destruct (draw_r RG g1 (RqRand [])) as [v g2]. cbn [combine hd].
+    unfold aget_d. cbn [aget]. rewrite (keqb_refl aeqb aeqb_spec). reflexivity.
+  - cbn [hd]. unfold aget_d. rewrite He. reflexivity.
+Qed.
+
 End TreeLeaf.
